@@ -4,6 +4,8 @@ import (
 	"encoding/hex"
 	"fmt"
 	"math/big"
+	"os"
+	"sort"
 	"time"
 
 	"verifharness/chain"
@@ -41,7 +43,7 @@ func paramsBytes(n *chain.Node) map[string]string {
 }
 
 func runC13(c *fw.Case) {
-	mc := gen.Minters(c.R, "uc4e", 30)
+	mc := gen.Minters(c.R, gen.MintDenom(c.R), 30)
 	attacker := chain.NewKey("attacker")
 	other := chain.NewKey("other-signer")
 	dk := newDistKeys()
@@ -110,6 +112,9 @@ func runC13(c *fw.Case) {
 			continue
 		}
 		labels = append(labels, label)
+		if os.Getenv("VERIF_TRACE") != "" {
+			fmt.Fprintln(os.Stderr, "C13", i, label, fmtTime(now), mc.Describe())
+		}
 		preBytes := paramsBytes(n)
 		preSnap := n.Snap()
 		vestDenomBefore := n.App.CfevestingKeeper.GetParams(n.Ctx()).Denom
@@ -238,6 +243,14 @@ func c13Message(c *fw.Case, n *chain.Node, dk *distEnv, mc gen.MinterConfig, aut
 	switch r.Intn(7) {
 	case 0, 1: // minter updates
 		cur := n.App.CfeminterKeeper.GetParams(ctx)
+		// never rely on the stored listing order, and never on end times being present
+		cur.Minters = append([]*minttypes.Minter{}, cur.Minters...)
+		sort.SliceStable(cur.Minters, func(i, j int) bool { return cur.Minters[i].SequenceId < cur.Minters[j].SequenceId })
+		for i, m := range cur.Minters {
+			if i < len(cur.Minters)-1 && m.EndTime == nil {
+				return nil, ""
+			}
+		}
 		st := n.App.CfeminterKeeper.GetMinterState(ctx)
 		var minters []*minttypes.Minter
 		start := cur.StartTime
@@ -295,14 +308,14 @@ func c13Message(c *fw.Case, n *chain.Node, dk *distEnv, mc gen.MinterConfig, aut
 			}
 			label = "structurally-invalid"
 		}
-		if minterStepCost(start, minters, now.Add(3*365*24*time.Hour)) > 20000 {
+		if minterStepCost(start, minters, now.Add(40*365*24*time.Hour)) > 50000 {
 			// the code iterates once per elapsed step; keep that a cost issue, not a hang of the harness
 			return nil, ""
 		}
 		if r.Intn(2) == 0 {
 			return &minttypes.MsgUpdateMintersParams{Authority: authority, StartTime: start, Minters: minters}, "minter.UpdateMintersParams/" + label
 		}
-		denom := []string{"uc4e", "uc4e", "foo", "", "a", "!"}[r.Intn(6)]
+		denom := []string{"uc4e", "uc4e", "foo", "", "a", "!", "umint", "ufresh"}[r.Intn(8)]
 		return &minttypes.MsgUpdateParams{Authority: authority, MintDenom: denom, StartTime: start, Minters: minters}, "minter.UpdateParams/" + label + "/denom=" + denom
 	case 2: // distributor full update
 		sds := n.App.CfedistributorKeeper.GetParams(ctx).SubDistributors
